@@ -87,7 +87,7 @@ class C11(Check):
                    'first/last/mean(reduce) on an empty key are outside the domain (discarded by the model)']
     ANCHORS = ['rxsci/data/roll.py', 'rxsci/data/split.py', 'rxsci/data/time_split.py', 'rxsci/operators/group_by.py',
                'rxsci/operators/tee_map.py', 'rxsci/operators/scan.py', 'rxsci/data/batch.py', 'rxsci/operators/multiplex.py']
-    REQUIRED_TAGS = ['roll', 'split', 'time_split', 'group_by', 'tee_map', 'batch', 'scan', 'mux', 'plain', 'depth>=2', 'scale'] + PRELUDE_TAGS
+    REQUIRED_TAGS = ['roll', 'split', 'time_split', 'group_by', 'tee_map', 'batch', 'scan', 'mux', 'plain', 'depth>=2', 'scale'] + ['history-fed-more-than-the-judged-stream'] + PRELUDE_TAGS
     REQUIRED_OBSERVED = ['outputs_positioned', 'outputs_before_completion', 'outputs_at_completion', 'cold_scheduler_runs_compared']
 
     def generate(self, rng, tier, shard, nshards):
@@ -119,6 +119,8 @@ class C11(Check):
                 opts = gen.GenOpts(model_safe=True, max_depth=rng.choice([1, 2, 2, 3]))
             prog, _ = gen.gen_pipeline(rng, 'i', rng.randint(1, 5), opts)
             items = gen.gen_items(rng, hi=rng.choice([6, 12, 30]), sorted_=rng.random() < 0.3)
+            if 'time_split' in progs.op_names(prog):
+                items = sorted(items)       # (timestamps are non-decreasing in the domain of C07; the model discards what an upstream operator scrambles)
             yield {'prog': prog, 'items': items, 'mode': 'plain' if plain else 'mux'}
 
     def evaluate(self, case):
